@@ -34,6 +34,9 @@ type pkgInfo struct {
 var pkgs = map[string]*pkgInfo{}
 
 func fail(f string, a ...any) {
+	if softFail {
+		panic(softFailure{fmt.Sprintf(f, a...)})
+	}
 	fmt.Fprintf(os.Stderr, "EXTRACT-FAIL: "+f+"\n", a...)
 	os.Exit(2)
 }
@@ -487,12 +490,14 @@ var fingerprints = map[string]string{}
 
 func (l *leanFile) write(outDir string) {
 	fmt.Fprintf(&l.sb, "\nend OsmoVerif.Gen.%s\n", l.name)
-	path := filepath.Join(outDir, l.name+".lean")
-	new := []byte(l.sb.String())
-	if old, err := os.ReadFile(path); err == nil && string(old) == string(new) {
+	writeIfChanged(filepath.Join(outDir, l.name+".lean"), l.sb.String())
+}
+
+func writeIfChanged(path, text string) {
+	if old, err := os.ReadFile(path); err == nil && string(old) == text {
 		return // keep mtime: lake hashes content anyway
 	}
-	if err := os.WriteFile(path, new, 0o644); err != nil {
+	if err := os.WriteFile(path, []byte(text), 0o644); err != nil {
 		fail("write %s: %v", path, err)
 	}
 }
